@@ -136,8 +136,17 @@ func (multiSource *MultiSource) ReadEntities(ctx context.Context, since DatasetC
 	}
 
 	if !multiSource.isFullSync {
-		for _, dep := range multiSource.Dependencies {
-			err := multiSource.processDependency(ctx, dep, d, batchSize, processEntities)
+		for i, dep := range multiSource.Dependencies {
+			// several dependencies may name the same dataset (other join paths, or a symmetric predicate in both
+			// directions). They work through the same page of its changes; the dataset's token only moves when the
+			// last of them is done
+			lastOfDataset := true
+			for _, later := range multiSource.Dependencies[i+1:] {
+				if later.Dataset == dep.Dataset {
+					lastOfDataset = false
+				}
+			}
+			err := multiSource.processDependency(ctx, dep, d, batchSize, lastOfDataset, processEntities)
 			if err != nil {
 				return err
 			}
@@ -162,7 +171,7 @@ func (multiSource *MultiSource) resetChangesCache() {
 	multiSource.changesCache = make(map[string]changeURIData)
 }
 
-func (multiSource *MultiSource) processDependency(ctx context.Context, dep Dependency, d *MultiDatasetContinuation, batchSize int, processEntities func([]*server.Entity, DatasetContinuation) error) error {
+func (multiSource *MultiSource) processDependency(ctx context.Context, dep Dependency, d *MultiDatasetContinuation, batchSize int, lastOfDataset bool, processEntities func([]*server.Entity, DatasetContinuation) error) error {
 	depDataset, err2 := multiSource.getDatasetFor(dep)
 	targetDs := multiSource.Store.DatasetsToInternalIDs([]string{multiSource.DatasetName})
 	if err2 != nil {
@@ -181,10 +190,12 @@ func (multiSource *MultiSource) processDependency(ctx context.Context, dep Depen
 	}
 
 	// When working through a dependency dataset, we first find all changes since the last run in that dependency
-	startPoints, continuation, err := multiSource.findChanges(depDataset, depSince, batchSize)
+	startPoints, continuation, pageSince, err := multiSource.findChanges(depDataset, depSince, batchSize)
 	if err != nil {
 		return fmt.Errorf("detecting changes in dependency dataset %+v failed, %w", dep, err)
 	}
+	// the look-back for removed links starts from where this page of changes was read from
+	depSince = pageSince
 
 	queryTime := time.Now().UnixNano()
 	entities := make([]*server.Entity, 0)
@@ -378,7 +389,9 @@ func (multiSource *MultiSource) processDependency(ctx context.Context, dep Depen
 		}
 	}
 
-	d.DependencyTokens[dep.Dataset] = &StringDatasetContinuation{Token: strconv.Itoa(int(continuation))}
+	if lastOfDataset {
+		d.DependencyTokens[dep.Dataset] = &StringDatasetContinuation{Token: strconv.Itoa(int(continuation))}
+	}
 	// if there are still unemitted search results, emit them now
 	if len(entities) > 0 {
 		err = processEntities(entities, d)
@@ -393,14 +406,15 @@ func (multiSource *MultiSource) processDependency(ctx context.Context, dep Depen
 type changeURIData struct {
 	ids          []uint64
 	continuation uint64
+	since        *StringDatasetContinuation // the token the page was read from
 }
 
-// returns array of internal entity ids, changes-continuation, error
+// returns array of internal entity ids, changes-continuation, the token the page was read from, error
 func (multiSource *MultiSource) findChanges(depDataset *server.Dataset, depSince *StringDatasetContinuation,
 	batchSize int,
-) ([]uint64, uint64, error) {
+) ([]uint64, uint64, *StringDatasetContinuation, error) {
 	if changes, ok := multiSource.changesCache[depDataset.ID]; ok {
-		return changes.ids, changes.continuation, nil
+		return changes.ids, changes.continuation, changes.since, nil
 	}
 
 	ids := make([]uint64, 0)
@@ -411,9 +425,9 @@ func (multiSource *MultiSource) findChanges(depDataset *server.Dataset, depSince
 		func(entity *server.Entity) {
 			ids = append(ids, entity.InternalID)
 		})
-	multiSource.changesCache[depDataset.ID] = changeURIData{ids, continuation}
+	multiSource.changesCache[depDataset.ID] = changeURIData{ids, continuation, depSince}
 
-	return ids, continuation, err
+	return ids, continuation, depSince, err
 }
 
 func (multiSource *MultiSource) getDatasetFor(dep Dependency) (*server.Dataset, error) {
